@@ -76,7 +76,9 @@ def g_score(draw):
     return {"ubm": ubm, "models": models, "stats": stats, "offsets": offsets, "same_as": same_as,
             "model_form": gen.choice(draw, ["machines", "stack", "list", "single2d"]),
             "stats_form": gen.choice(draw, ["list", "single"]),
-            "normalise": gen.boolean(draw), "ubm_as_map": gen.choice(draw, [False, True, "ml_with_seed", False]),
+            "normalise": gen.boolean(draw),
+            # the flag as callers hold it: a Python bool, the np.bool_ a comparison or an HDF5 read returns, or 0 / 1
+            "flag_as": gen.choice(draw, ["bool", "bool", "np", "int"]), "ubm_as_map": gen.choice(draw, [False, True, "ml_with_seed", False]),
             "stats_layout": gen.choice(draw, ["C", "C", "F", "strided"]),
             # statistics whose arrays are still lazy (what acc_stats returns for a Dask array), possibly mixed with
             # in-memory ones in one list
@@ -125,6 +127,7 @@ def call(case, ubm_machine, models=None, stats=None, offsets="case", normalise=N
     if off is not None:
         kw["test_channel_offsets"] = np.array(off)
     norm = case["normalise"] if normalise is None else normalise
+    norm = {"np": np.bool_(norm), "int": int(norm)}.get(case.get("flag_as", "bool"), bool(norm))
     return np.asarray(linear_scoring(marg, ubm_machine, sarg, frame_length_normalization=norm, **kw))
 
 
